@@ -1,5 +1,580 @@
 package main
 
-func run(cases, out string, seed int64, replays string, maxReplays int) {
-	fatal("not implemented")
+import (
+	"bufio"
+	"encoding/json"
+	"fmt"
+	"os"
+	"path/filepath"
+	"regexp"
+	"sort"
+	"strings"
+	"time"
+)
+
+type Mismatch struct {
+	Idx       int    `json:"idx"`
+	Frag      string `json:"frag"`
+	Signature string `json:"signature"`
+	Msg       string `json:"msg"`
+	Replay    string `json:"replay,omitempty"`
+	Query     string `json:"query"`
+	MatchesPl bool   `json:"matches_mechanism_model"`
+}
+
+type Result struct {
+	Seed         int64            `json:"seed"`
+	CasesRun     int              `json:"cases_run"`
+	Distinct     int              `json:"distinct_cases"`
+	NonTrivial   int              `json:"nontrivial_cases"` // expected answer non-empty AND something stored is not returned
+	ByFrag       map[string]int   `json:"by_frag"`
+	Agree        int              `json:"agree"`
+	Mismatches   []Mismatch       `json:"mismatches"`
+	DevConfirmed int              `json:"dev_cases_matching_mechanism_model"`
+	DevRefuted   []int            `json:"dev_cases_where_code_meets_definition"`
+	Infra        []string         `json:"infra"`
+	PoolUse      map[string]int   `json:"pool_use"`
+	StageUse     map[string]int   `json:"stage_use"`
+	Samples      []map[string]any `json:"samples"`
+	WallS        float64          `json:"wall_s"`
+	Pushes       int              `json:"writer_pushes"`
+	Queries      int              `json:"queries"`
+}
+
+type item struct {
+	Labels string
+	Ts     string
+	Line   string
+}
+
+func labelsText(l map[string]string) string {
+	ks := make([]string, 0, len(l))
+	for k, v := range l {
+		if v == "" {
+			continue // LogQL: a label with the empty value is an absent label
+		}
+		ks = append(ks, k)
+	}
+	sort.Strings(ks)
+	var b strings.Builder
+	for _, k := range ks {
+		fmt.Fprintf(&b, "%s=%q,", k, l[k])
+	}
+	return b.String()
+}
+
+func run(casesPath, outPath string, seed int64, replayDir string, maxReplays int) {
+	t0 := time.Now()
+	f, err := os.Open(casesPath)
+	if err != nil {
+		fatal("%v", err)
+	}
+	defer f.Close()
+	w, err := NewWorld()
+	if err != nil {
+		fatal("world: %v", err)
+	}
+	res := &Result{Seed: seed, ByFrag: map[string]int{}, PoolUse: map[string]int{}, StageUse: map[string]int{}}
+	seen := map[string]bool{}
+	perSig := map[string]int{}
+	sc := bufio.NewScanner(f)
+	sc.Buffer(make([]byte, 1<<20), 1<<28)
+	var preps []*prepared
+	var sets []map[string]string
+	for sc.Scan() {
+		line := strings.TrimSpace(sc.Text())
+		if line == "" {
+			continue
+		}
+		c := &ACase{}
+		if err := json.Unmarshal([]byte(line), c); err != nil {
+			res.Infra = append(res.Infra, "unparsable case: "+err.Error())
+			continue
+		}
+		key := fmt.Sprintf("%s/%d", c.Frag, c.Idx)
+		if seen[key] {
+			continue
+		}
+		seen[key] = true
+		var p *prepared
+		if c.Q.Mq != nil {
+			p = prepareMetricCase(c, seed)
+		} else {
+			p = prepareLogCase(c, seed)
+		}
+		preps = append(preps, p)
+		for _, e := range p.entries {
+			sets = append(sets, e.Labels)
+		}
+	}
+	// series rows as the real writer produces them, learnt in batches
+	for i := 0; i < len(sets); i += 300 {
+		j := i + 300
+		if j > len(sets) {
+			j = len(sets)
+		}
+		if err := w.learn(sets[i:j]); err != nil {
+			res.Infra = append(res.Infra, "learning series through the writer: "+err.Error())
+			break
+		}
+	}
+	for _, p := range preps {
+		c := p.c
+		key := fmt.Sprintf("%s/%d", c.Frag, c.Idx)
+		res.CasesRun++
+		res.ByFrag[c.Frag]++
+		var out *caseOutcome
+		if p.out.infra != "" {
+			out = p.out
+		} else if c.Q.Mq != nil {
+			out = runMetricCase(w, p)
+		} else {
+			out = runLogCase(w, p)
+		}
+		res.Queries++
+		for _, t := range out.tags {
+			res.PoolUse[t]++
+		}
+		for _, st := range c.Q.P {
+			res.StageUse[st.K+st.Op]++
+		}
+		for _, m := range c.Q.M {
+			res.StageUse["matcher"+m.Op]++
+		}
+		if out.nontrivial {
+			res.NonTrivial++
+		}
+		if out.infra != "" {
+			if len(res.Infra) < 50 {
+				res.Infra = append(res.Infra, fmt.Sprintf("case %s: %s", key, out.infra))
+			}
+			continue
+		}
+		if len(res.Samples) < 2 && out.nontrivial && out.sig == "" {
+			res.Samples = append(res.Samples, out.replay)
+		}
+		if out.sig == "" {
+			res.Agree++
+			if c.Dev {
+				res.DevRefuted = append(res.DevRefuted, c.Idx)
+				if replayDir != "" && len(res.DevRefuted) <= 5 {
+					writeReplay(replayDir, fmt.Sprintf("refuted_%s_%d", c.Frag, c.Idx), out.replay)
+				}
+			}
+			continue
+		}
+		if c.Dev && out.matchesPl {
+			res.DevConfirmed++
+		}
+		mm := Mismatch{Idx: c.Idx, Frag: c.Frag, Signature: out.sig, Msg: out.msg, Query: out.query, MatchesPl: out.matchesPl}
+		perSig[out.sig]++
+		if replayDir != "" && perSig[out.sig] <= maxReplays {
+			mm.Replay = writeReplay(replayDir, fmt.Sprintf("%s_%d_%s", c.Frag, c.Idx, sanitize(out.sig)), out.replay)
+		}
+		if perSig[out.sig] <= 200 {
+			res.Mismatches = append(res.Mismatches, mm)
+		}
+	}
+	if err := sc.Err(); err != nil {
+		res.Infra = append(res.Infra, "reading cases: "+err.Error())
+	}
+	res.Distinct = len(seen)
+	res.WallS = time.Since(t0).Seconds()
+	res.Pushes = w.Pushes
+	if len(w.W.StoreErr) > 0 {
+		res.Infra = append(res.Infra, "store errors: "+strings.Join(w.W.StoreErr, "; "))
+	}
+	raw, _ := json.MarshalIndent(res, "", " ")
+	if err := os.WriteFile(outPath, raw, 0o644); err != nil {
+		fatal("%v", err)
+	}
+}
+
+var reSan = regexp.MustCompile(`[^A-Za-z0-9]+`)
+
+func sanitize(s string) string {
+	s = reSan.ReplaceAllString(s, "_")
+	if len(s) > 80 {
+		s = s[:80]
+	}
+	return s
+}
+
+func writeReplay(dir, name string, obj any) string {
+	os.MkdirAll(dir, 0o755)
+	p := filepath.Join(dir, name+".json")
+	var b strings.Builder
+	e := json.NewEncoder(&b)
+	e.SetEscapeHTML(false)
+	e.SetIndent("", " ")
+	e.Encode(obj)
+	os.WriteFile(p, []byte(b.String()), 0o644)
+	return p
+}
+
+type caseOutcome struct {
+	sig        string
+	msg        string
+	query      string
+	infra      string
+	matchesPl  bool
+	nontrivial bool
+	tags       []string
+	replay     map[string]any
+}
+
+// selfCheck verifies that the concrete strings realise the abstract relations the specification assumes.
+func selfCheck(k *Conc, c *ACase, lines []string) error {
+	for i, e := range c.DB {
+		has := map[string]bool{}
+		for _, f := range e.Feats {
+			has[f] = true
+		}
+		for _, f := range []string{"f1", "f2", "f3"} {
+			if strings.Contains(lines[i], k.Feat[f].S) != has[f] {
+				return fmt.Errorf("line %q contains(%q) != %v", lines[i], k.Feat[f].S, has[f])
+			}
+		}
+	}
+	vs := []string{k.Val["v1"], k.Val["v2"], k.Val["w"]}
+	for i := range vs {
+		for j := range vs {
+			if i != j && strings.Contains(vs[i], vs[j]) {
+				return fmt.Errorf("value %q contains value %q", vs[i], vs[j])
+			}
+		}
+	}
+	return nil
+}
+
+type prepared struct {
+	c       *ACase
+	k       *Conc
+	lines   []string
+	entries []CEntry
+	req     CRequest
+	out     *caseOutcome
+}
+
+func prepareLogCase(c *ACase, seed int64) *prepared {
+	out := &caseOutcome{}
+	p := &prepared{c: c, out: out}
+	var k *Conc
+	var lines []string
+	ok := false
+	for attempt := int64(0); attempt < 20 && !ok; attempt++ {
+		k = newConc(c, seed+attempt*104729)
+		k.setTimes(&c.Q, 1)
+		lines = lines[:0]
+		ok = true
+		for i := range c.DB {
+			l, err := k.lineOf(&c.DB[i], i+1)
+			if err != nil {
+				out.infra = "line: " + err.Error()
+				return p
+			}
+			lines = append(lines, l)
+		}
+		if err := selfCheck(k, c, lines); err != nil {
+			ok = false
+			out.infra = "concretiser self-check: " + err.Error()
+		}
+	}
+	if !ok {
+		return p
+	}
+	out.infra = ""
+	var entries []CEntry
+	for i, e := range c.DB {
+		lbls := map[string]string{}
+		for n, v := range e.S {
+			if v != "" {
+				lbls[k.Name[n]] = k.val(v)
+			}
+		}
+		ty := 1
+		if e.Ty == "metric" {
+			ty = 2
+		}
+		entries = append(entries, CEntry{Labels: lbls, TsNs: k.tickNs(&c.Q, e.T), Line: lines[i], Type: ty, ID: i + 1, Value: 0})
+	}
+	p.k, p.lines, p.entries = k, lines, entries
+	p.req = CRequest{Query: k.logSelectorAndPipe(&c.Q), StartNs: k.FromNs, EndNs: k.ToNs, Limit: c.Q.Lim, Forward: c.Q.Fwd}
+	return p
+}
+
+func runLogCase(w *World, p *prepared) *caseOutcome {
+	out, c, k, lines, entries := p.out, p.c, p.k, p.lines, p.entries
+	if err := w.Load(entries, time.Unix(baseSec, 0).UTC().Truncate(24*time.Hour)); err != nil {
+		out.infra = "load: " + err.Error()
+		return out
+	}
+	req := p.req
+	out.query = req.Query
+	obs := w.Run(req)
+	out.tags = tagsOf(k, c)
+	// expected
+	exp := map[item]int{}
+	expList := []item{}
+	for _, r := range c.Exp {
+		e := entries[r.ID-1]
+		it := item{labelsText(k.concLabels(r.Lbls, msgOf(lines[r.ID-1], c.DB[r.ID-1].Fmt))), fmt.Sprint(e.TsNs), e.Line}
+		exp[it]++
+		expList = append(expList, it)
+	}
+	inWin := 0
+	for _, e := range c.DB {
+		if e.Ty == "log" && e.T >= c.Q.From && e.T < c.Q.To {
+			inWin++
+		}
+	}
+	out.nontrivial = len(c.Exp) > 0 && len(c.Exp) < len(c.DB)
+	out.replay = map[string]any{"case": c, "logql": req.Query, "request": req, "entries": entries, "observed": obs,
+		"expected": expList, "regex_flavours": k.regexFl, "concretisation": map[string]any{"values": k.Val, "features": k.Feat, "names": k.Name}}
+	if len(obs.Unsup) > 0 {
+		out.infra = "chsql does not support: " + strings.Join(obs.Unsup, " | ")
+		return out
+	}
+	got := map[item]int{}
+	orderBad := ""
+	if obs.Code == 200 && obs.ParseErr == "" {
+		if obs.ResultType != "streams" {
+			out.sig, out.msg = "shape|resultType="+obs.ResultType, "log query answered with resultType "+obs.ResultType
+		}
+		for _, s := range obs.Streams {
+			lt := labelsText(s.Labels)
+			prev := ""
+			for _, v := range s.Values {
+				got[item{lt, v[0], v[1]}]++
+				if prev != "" {
+					if (c.Q.Fwd && len(prev) == len(v[0]) && prev > v[0]) || (!c.Q.Fwd && len(prev) == len(v[0]) && prev < v[0]) {
+						orderBad = fmt.Sprintf("stream %s: %s then %s", lt, prev, v[0])
+					}
+				}
+				prev = v[0]
+			}
+		}
+	}
+	out.replay["tables"] = w.Tables()
+	if out.sig != "" {
+		return out
+	}
+	why := devWhy(k, c)
+	if obs.Code != 200 || obs.ParseErr != "" {
+		if len(obs.SQLErr) > 0 {
+			out.sig = why + "|error:sql-rejected"
+			out.msg = fmt.Sprintf("the generated SQL is rejected: %s (query %s)", obs.SQLErr[0], req.Query)
+		} else {
+			out.sig = why + "|error:http-" + fmt.Sprint(obs.Code)
+			out.msg = fmt.Sprintf("query %s fails: code %d body %.200s %s", req.Query, obs.Code, obs.Body, obs.ParseErr)
+		}
+		return out
+	}
+	missing, extra := 0, 0
+	var firstMissing, firstExtra item
+	for it, n := range exp {
+		if got[it] < n {
+			if missing == 0 {
+				firstMissing = it
+			}
+			missing += n - got[it]
+		}
+	}
+	for it, n := range got {
+		if exp[it] < n {
+			if extra == 0 {
+				firstExtra = it
+			}
+			extra += n - exp[it]
+		}
+	}
+	if missing == 0 && extra == 0 {
+		if orderBad != "" && c.Q.Lim > 0 {
+			out.sig = "order|" + map[bool]string{true: "forward", false: "backward"}[c.Q.Fwd]
+			out.msg = "lines of one stream are not in the requested direction: " + orderBad
+		}
+		return out
+	}
+	// does the observation coincide with what the mechanism model predicts?
+	if c.Dev {
+		var pl []ARes
+		json.Unmarshal(c.Pl, &pl)
+		plm := map[item]int{}
+		for _, r := range pl {
+			e := entries[r.ID-1]
+			plm[item{labelsText(k.concLabels(r.Lbls, msgOf(lines[r.ID-1], c.DB[r.ID-1].Fmt))), fmt.Sprint(e.TsNs), e.Line}]++
+		}
+		out.matchesPl = len(plm) == len(got)
+		for it, n := range plm {
+			if got[it] != n {
+				out.matchesPl = false
+			}
+		}
+	}
+	// classify: lines (by timestamp+text) vs labels only
+	type tl struct{ ts, line string }
+	el, gl := map[tl]int{}, map[tl]int{}
+	for it, n := range exp {
+		el[tl{it.Ts, it.Line}] += n
+	}
+	for it, n := range got {
+		gl[tl{it.Ts, it.Line}] += n
+	}
+	cls := "labels"
+	ml, xl := 0, 0
+	for x, n := range el {
+		if gl[x] < n {
+			ml++
+		}
+	}
+	for x, n := range gl {
+		if el[x] < n {
+			xl++
+		}
+	}
+	switch {
+	case ml > 0 && xl > 0:
+		cls = "wrong-lines"
+	case ml > 0:
+		cls = "missing-lines"
+	case xl > 0:
+		cls = "extra-lines"
+	}
+	out.sig = why + "|" + cls
+	out.msg = fmt.Sprintf("%s: expected %d lines, got %d (%d missing, %d unexpected)", req.Query, len(expList), total(got), missing, extra)
+	if missing > 0 {
+		out.msg += fmt.Sprintf("; e.g. missing {%s} %s %q", firstMissing.Labels, firstMissing.Ts, firstMissing.Line)
+	}
+	if extra > 0 {
+		out.msg += fmt.Sprintf("; e.g. unexpected {%s} %s %q", firstExtra.Labels, firstExtra.Ts, firstExtra.Line)
+	}
+	return out
+}
+
+func total(m map[item]int) int {
+	n := 0
+	for _, v := range m {
+		n += v
+	}
+	return n
+}
+
+func msgOf(line, fmtKind string) string {
+	if fmtKind != "json" {
+		return ""
+	}
+	var m map[string]any
+	if json.Unmarshal([]byte(line), &m) == nil {
+		if s, ok := m["msg"].(string); ok {
+			return s
+		}
+	}
+	return ""
+}
+
+// tagsOf lists the hostile pool members a case exercised (coverage counters).
+func tagsOf(k *Conc, c *ACase) []string {
+	var t []string
+	for _, st := range c.Q.P {
+		if st.K == "lf" {
+			if st.Op == "|=" || st.Op == "!=" {
+				t = append(t, "feature:"+k.Feat[st.Arg].Tag)
+			} else {
+				t = append(t, "lineregex:"+k.regexFl[st.Arg])
+			}
+		}
+	}
+	for _, m := range c.Q.M {
+		if m.Val == "v1" || m.Val == "v2" {
+			t = append(t, "value:"+k.ValTag[m.Val])
+		}
+	}
+	return t
+}
+
+// devWhy names the structural trigger of a disagreement (stable across seeds): the first rule that applies.
+func devWhy(k *Conc, c *ACase) string {
+	q := &c.Q
+	if len(q.M) >= 9 {
+		return "selector:9+matchers"
+	}
+	firstParser, firstDrop := -1, -1
+	for i, st := range q.P {
+		if (st.K == "json" || st.K == "jsonp" || st.K == "regexp") && firstParser < 0 {
+			firstParser = i
+		}
+		if (st.K == "drop" || st.K == "dropv") && firstDrop < 0 {
+			firstDrop = i
+		}
+	}
+	for _, st := range q.P {
+		if st.K == "json" && q.Lim == 0 {
+			return "go-engine:limit-omitted"
+		}
+	}
+	for _, st := range q.P {
+		if st.K == "lf" && st.Op == "!~" && !strings.HasPrefix(st.Arg, "L_") {
+			return "linefilter:!~:non-literal-regex"
+		}
+	}
+	for _, st := range q.P {
+		if st.K == "jsonp" {
+			for _, p := range st.Params {
+				if strings.Contains(p.Path, ".") {
+					return "json:nested-path"
+				}
+			}
+		}
+	}
+	for i, st := range q.P {
+		if st.K == "lbl" && firstDrop >= 0 && firstDrop < i && (firstParser < 0 || i < firstParser) {
+			return "labelfilter:after-drop-before-parser"
+		}
+	}
+	// a matcher that an absent label satisfies
+	for _, m := range q.M {
+		absentOK := (m.Op == "!=" && m.Val != "") || (m.Op == "=" && m.Val == "") || (m.Op == "=~" && m.Val == "R_any") ||
+			(m.Op == "!~" && m.Val != "R_any")
+		if !absentOK {
+			continue
+		}
+		for _, e := range c.DB {
+			if e.S[m.Name] == "" {
+				return "selector:" + m.Op + ":label-absent-from-stream"
+			}
+		}
+	}
+	// concrete triggers: hostile characters in line filter operands
+	for _, st := range q.P {
+		if st.K == "lf" {
+			var operand, tag string
+			if st.Op == "|=" || st.Op == "!=" {
+				operand, tag = k.Feat[st.Arg].S, k.Feat[st.Arg].Tag
+			} else if strings.HasPrefix(st.Arg, "L_") {
+				f := map[string]string{"L_f1": "f1", "L_f2": "f2"}[st.Arg]
+				operand, tag = k.Feat[f].S, k.Feat[f].Tag
+			}
+			if strings.HasSuffix(operand, "'") || strings.HasPrefix(operand, "'") || strings.Contains(operand, `\`) {
+				return "linefilter:" + likeKind(st.Op) + ":operand-" + tag
+			}
+		}
+	}
+	// shape
+	var ks []string
+	for _, st := range q.P {
+		ks = append(ks, st.K+st.Op)
+	}
+	lim := ""
+	if q.Lim > 0 {
+		lim = "|limit"
+	}
+	return "shape:" + strings.Join(ks, ",") + lim
+}
+
+func likeKind(op string) string {
+	switch op {
+	case "|=", "|~":
+		return "like"
+	}
+	return "notLike"
 }
